@@ -48,10 +48,10 @@ def _err_blocks(body):
     out = set()
     for b in body.reachable:
         for s in body.stmts(b):
-            if "lhs" in s and s["lhs"][0] == 0 and not s["lhs"][1] and s["rv"].get("k") == "aggr" and s["rv"].get("variant") == "Err":
+            if "lhs" in s and s["lhs"][0] in body.ret_locals and not s["lhs"][1] and s["rv"].get("k") == "aggr" and s["rv"].get("variant") == "Err":
                 out.add(b)
         t = body.term(b)
-        if t["k"] == "call" and "fn" in t and Callee(t["fn"]).decl_path == "std::ops::FromResidual::from_residual" and t["dest"][0] == 0:
+        if t["k"] == "call" and "fn" in t and Callee(t["fn"]).decl_path == "std::ops::FromResidual::from_residual" and t["dest"][0] in body.ret_locals:
             out.add(b)
     return out
 
@@ -88,7 +88,7 @@ def option_none_fate(prog, body, opt_local, depth=6):
                 if a0 and a0[0] == a and last in ("ok_or", "ok_or_else"):
                     rs = _moved_to(body, node["dest"][0])
                     brk = any(R.try_break_edges(body, r) for r in rs)
-                    if brk or 0 in rs:
+                    if brk or (rs & body.ret_locals):
                         verdicts.append(("err", f".{last}(..)?"))
                     else:
                         verdicts.append(("ok-exit", [b]))
